@@ -191,6 +191,8 @@ type c10World struct {
 	// keep-alive mode: the servers ping idle peers; well-behaved clients answer every ping at once
 	keepAlive       bool
 	closedByMonitor map[string]int
+	tickBusy        bool
+	skippedTicks    int
 }
 
 // c10MonitorOpts replaces the (practically switched off) default inactivity monitor of the servers.
@@ -493,14 +495,28 @@ func (w *c10World) answerPings() {
 	}
 }
 
+// tick: the servers run their housekeeping on ONE goroutine (pkg/runner/periodic): a tick that finds the previous
+// one still running does not happen.
 func (w *c10World) tick(now time.Time) {
 	w.mu.Lock()
 	fs := append([]func(now time.Time) bool(nil), w.ticks...)
+	busy := w.tickBusy
+	if !busy {
+		w.tickBusy = true
+	}
 	w.mu.Unlock()
+	if busy {
+		w.e.Probe("housekeeping.tickSkippedPreviousStillRunning")
+		w.skippedTicks++
+		return
+	}
 	go func() {
 		for _, f := range fs {
 			f(now)
 		}
+		w.mu.Lock()
+		w.tickBusy = false
+		w.mu.Unlock()
 	}()
 }
 
